@@ -83,6 +83,37 @@ CLAIMS['C15'] = dict(
     design_ref='DESIGN.md 3/C15',
     note='affine forms are exact for these walks (else the check reports that it cannot model the walk)')
 
+CLAIMS['C06'] = dict(
+    technique='static analysis: call-graph reachability over resolved callees (who-may-call), dataflow rule on the w-NAF add-back carry, edge-dominance of digit reads, record-extent witnesses, constant relations of the GLV/Frobenius constants',
+    category='other',
+    text='Partial claim: order-r-only multiplications are unreachable from code handling points not yet in the subgroup; the recoding add-back overflow is tested and repaired in every instantiated width; digit reads are guarded; digit buffers/tables have the required extents; the GLV lattice, lambda/beta agreement, reciprocal multiplier (with exactness bound) and Frobenius constant are right. [k]P and the decomposition arithmetic are NOT decided.',
+    design_ref='DESIGN.md 3/C06', note='necessary conditions only; x is the trusted root')
+CLAIMS['C07'] = dict(
+    technique='static analysis: rejection-loop rule (exit only on the in-range edge of a comparison against a constant of the right value), constant relations, interval rule on the bit-scan loop',
+    category='other',
+    text='Partial claim: the random exponent is rejection-sampled below |x| per digit and below r overall, recombined with |x|^k, and the exponentiation scans all 64 bits of each digit; a^k itself is NOT decided.',
+    design_ref='DESIGN.md 3/C07', note='necessary conditions only')
+CLAIMS['C08'] = dict(
+    technique='static analysis: exact evaluation of constant-controlled loops over the AST (event traces of producer and consumers compared), edge-dominance for identity pairs, forwarding shape',
+    category='other',
+    text='The prepared path consumes exactly the 68 coefficients prepare produced, in order and at the same positions relative to the accumulator squarings as the on-the-fly steps; per-pair state is reset; identity pairs are skipped anywhere in the list; product = Miller loop + one final exponentiation. The trace space is a single trace (exhaustive). Numerical equality of values is NOT decided.',
+    design_ref='DESIGN.md 3/C08', note='the traces depend only on bls_x and literals; a data-dependent condition other than the identity tests is reported as not analysable (exit 2)')
+CLAIMS['C10'] = dict(
+    technique='static analysis: rejection-loop and reduce-after-read rules on CFGs, who-may-call reachability, constant relations',
+    category='other',
+    text='Partial claim: field/scalar sampling, hash reduction, point sampling and try-and-increment exit only on the in-range/valid edges with the right moduli and validation flag; callers reduce what they read; cofactor clearing uses generic multiplication and the right cofactors. Determinism of hash-to-curve as a function is NOT decided.',
+    design_ref='DESIGN.md 3/C10', note='necessary conditions only')
+CLAIMS['C14'] = dict(
+    technique='static analysis: forwarding-shape rule, path enumeration of the two-cursor merge (progress obligations), borrow-repair rule for subtraction modulo r',
+    category='other',
+    text='Partial claim: direct forms are precompute + precomputed forms by construction; the merge advances correctly on every path and drains both lists; identity differences are reduced modulo r. Equality of group elements and adjust_nondelegable are NOT decided.',
+    design_ref='DESIGN.md 3/C14', note='assumes sorted lists')
+CLAIMS['C16'] = dict(
+    technique='static analysis: writer/reader agreement of the hash-input struct (definite assignment of every member, same sources and codecs, same callback arguments), padding-freeness in every configuration, role checks, who-may-call for cofactor clearing',
+    category='other',
+    text='Encryption and decryption feed the hash callback the same struct filled from the same sources; the struct has no padding; roles of keygen/encrypt/decrypt are as the scheme requires. Equality of the two pairing values is bilinearity (C01) and is NOT decided.',
+    design_ref='DESIGN.md 3/C16', note='structural agreement only')
+
 NA = {
  'C03': 'bit-equality of assembly and C++ back ends over 2^768 inputs is a numerical equivalence: needs execution or a solver (other families); structural asm facts are decided under C17/C18/C20',
  'C13': 'acceptance/rejection is the value of a pairing-product equation; no structural clause beyond the sign/verify delegation decided under C14',
